@@ -44,8 +44,9 @@ def Drawn (K : Ctx W cb) (x : Nat) (st : Row.FmtSt) : Prop :=
 
 /-- the emitter's cursor move and pen change before an erase run is flushed (no wrap-through) -/
 theorem eraseMove_drawn (K : Ctx W cb) {x : Nat} {st : Row.FmtSt} (h : Drawn K x st) (hx : x ≤ K.src.length)
-    (e : Nat) (a : Attrs) (he : e < K.src.length) (hwf : Attrs.wf a) :
-    let st' := Row.eraseMove K.src.length K.i false st e a
+    (e : Nat) (a : Attrs) (he : e < K.src.length) (hwf : Attrs.wf a) (w : Bool)
+    (hrow : w = true → st.prevPos.row = K.i) :
+    let st' := Row.eraseMove K.src.length K.i w st e a
     Drawn K x st' ∧ st'.prevPos = ⟨K.i, e⟩ ∧ st'.prevAttrs = a ∧ st'.erase = st.erase ∧
       st'.prevWasWide = st.prevWasWide := by
   obtain ⟨Ri, hem, hline⟩ := h
@@ -57,7 +58,12 @@ theorem eraseMove_drawn (K : Ctx W cb) {x : Nat} {st : Row.FmtSt} (h : Drawn K x
   have h1 := emitted_step W cb K.ready hem
     (step_moveFromTo W cb st.prevPos ⟨K.i, e⟩ (by simp only; omega) (by simp only; rw [← K.hsrc] at hu; omega))
     (shape_goto K.canvas hl st.prevPos ⟨K.i, e⟩ st.prevAttrs K.hi (by rw [← K.hsrc]; exact he))
-  simp only [Row.eraseMove, Bool.false_and, Bool.false_eq_true, ↓reduceIte]
+  have hcw : (w && st.prevPos.row + 1 == ({ row := K.i, col := e } : Pos).row &&
+      decide (st.prevPos.col ≥ K.src.length)) = false := by
+    cases w
+    · simp
+    · simp [hrow rfl]
+  simp only [Row.eraseMove, hcw, Bool.false_eq_true, ↓reduceIte]
   by_cases hp : (st.prevAttrs != a) = true
   · simp only [hp, ↓reduceIte]
     have h2 := emitted_step W cb K.ready h1 (step_pen W cb a st.prevAttrs hwf)
@@ -129,13 +135,14 @@ structure Inv1 (K : Ctx W cb) (j : Nat) (st : Row.FmtSt) : Prop where
     ∀ k (hk : k < K.src.length), e ≤ k → k < j → view K.src[k] = blankA a
 
 /-- the first half of the per-cell body: a pending erase run is flushed exactly when cell `j` ends it -/
-theorem flush_inv (K : Ctx W cb) {j : Nat} (hj : j < K.src.length) {st : Row.FmtSt} (h : Inv1 K j st) :
-    ∃ st2, C03.flush K.src.length K.i false st j K.src[j] = .ok st2 ∧ Inv1 K j st2 ∧
-      st2.prevWasWide = st.prevWasWide ∧
+theorem flush_inv (K : Ctx W cb) {j : Nat} (hj : j < K.src.length) {st : Row.FmtSt} (h : Inv1 K j st) (w : Bool)
+    (hrow : w = true → st.prevPos.row = K.i) :
+    ∃ st2, C03.flush K.src.length K.i w st j K.src[j] = .ok st2 ∧ Inv1 K j st2 ∧
+      st2.prevWasWide = st.prevWasWide ∧ (w = true → st2.prevPos.row = K.i) ∧
       (st2.erase = none ∨ ∃ e a, st2.erase = some (e, a) ∧ K.src[j].hasContents = false ∧ K.src[j].attrs = a) := by
   unfold C03.flush
   cases he : st.erase with
-  | none => exact ⟨st, rfl, h, rfl, Or.inl he⟩
+  | none => exact ⟨st, rfl, h, rfl, hrow, Or.inl he⟩
   | some pa =>
     obtain ⟨e, a⟩ := pa
     obtain ⟨hej, hel, hwf, hvs⟩ := h.er e a he
@@ -143,8 +150,8 @@ theorem flush_inv (K : Ctx W cb) {j : Nat} (hj : j < K.src.length) {st : Row.Fmt
     by_cases hcond : (K.src[j].hasContents || K.src[j].attrs != a) = true
     · simp only [hcond, ↓reduceIte, subM_ok hej, pure_bind', ok_bind]
       have hd : Drawn K e st := by have := h.drawn; simpa [esK, he] using this
-      obtain ⟨hd', hp', ha', he', hw'⟩ := eraseMove_drawn K hd (Nat.le_of_lt hel) e a hel hwf
-      refine ⟨_, rfl, ⟨?_, ?_⟩, hw', Or.inl rfl⟩
+      obtain ⟨hd', hp', ha', he', hw'⟩ := eraseMove_drawn K hd (Nat.le_of_lt hel) e a hel hwf w hrow
+      refine ⟨_, rfl, ⟨?_, ?_⟩, hw', fun _ => by simp only [hp'], Or.inl rfl⟩
       · -- the ECH
         show Drawn K j _
         obtain ⟨Ri, hem, hline⟩ := hd'
@@ -170,7 +177,7 @@ theorem flush_inv (K : Ctx W cb) {j : Nat} (hj : j < K.src.length) {st : Row.Fmt
       · intro e' a' h'; simp at h'
     · simp only [hcond, Bool.false_eq_true, ↓reduceIte]
       simp only [Bool.or_eq_true, bne_iff_ne, ne_eq, not_or, Bool.not_eq_true, Decidable.not_not] at hcond
-      exact ⟨st, rfl, h, rfl, Or.inr ⟨e, a, he, hcond.1, hcond.2⟩⟩
+      exact ⟨st, rfl, h, rfl, hrow, Or.inr ⟨e, a, he, hcond.1, hcond.2⟩⟩
 
 theorem drawn_congr (K : Ctx W cb) {x : Nat} {st st' : Row.FmtSt} (h : Drawn K x st) (ho : st'.out = st.out)
     (hp : st'.prevPos = st.prevPos) (ha : st'.prevAttrs = st.prevAttrs) : Drawn K x st' := by
@@ -188,10 +195,17 @@ def afterText (i j : Nat) (st : Row.FmtSt) (c : Cell) : Row.FmtSt :=
             (if (st.prevAttrs != c.attrs) = true then c.attrs.writeEscapeCodeDiff st.prevAttrs else [])) ++
            c.contents.take c.len }
 
-theorem emit_text_eq (n i j : Nat) (st : Row.FmtSt) (c : Cell) (hh : c.hasContents = true) (hf : CellFine c) :
-    C03.emit n i false st j c true = .ok (afterText i j st c) := by
+theorem emit_text_eq (n i j : Nat) (st : Row.FmtSt) (c : Cell) (hh : c.hasContents = true) (hf : CellFine c)
+    (w : Bool) (hrow : w = true → st.prevPos.row = i) :
+    C03.emit n i w st j c true = .ok (afterText i j st c) := by
   unfold C03.emit
-  simp only [↓reduceIte, hh, contentsBytes_ok hf, Bool.not_false, Bool.true_or]
+  have hmv : (!w || st.prevPos.row + 1 != ({ row := i, col := j } : Pos).row ||
+      decide (st.prevPos.col < n - if c.isWide = true then 1 else 0) ||
+      ({ row := i, col := j } : Pos).col != 0) = true := by
+    cases w
+    · simp
+    · simp [hrow rfl]
+  simp only [↓reduceIte, hh, contentsBytes_ok hf, hmv]
   by_cases h1 : (({ row := i, col := j } : Pos) != st.prevPos) = true <;>
     by_cases h2 : (st.prevAttrs != c.attrs) = true <;>
     simp [afterText, h1, h2]
@@ -207,8 +221,9 @@ theorem emit_text_eq (n i j : Nat) (st : Row.FmtSt) (c : Cell) (hh : c.hasConten
 
 /-- a cell with text: move there if need be, set the pen if need be, type it -/
 theorem draw_text (K : Ctx W cb) (hW : WOk W) (hS : SrcOk W K.src) {j : Nat} (hj : j < K.src.length)
-    {st : Row.FmtSt} (hd : Drawn K j st) (hh : K.src[j].hasContents = true) :
-    C03.emit K.src.length K.i false st j K.src[j] true = .ok (afterText K.i j st K.src[j]) ∧
+    {st : Row.FmtSt} (hd : Drawn K j st) (hh : K.src[j].hasContents = true) (w : Bool)
+    (hrow : w = true → st.prevPos.row = K.i) :
+    C03.emit K.src.length K.i w st j K.src[j] true = .ok (afterText K.i j st K.src[j]) ∧
       Drawn K (j + (if K.src[j].wide then 2 else 1)) (afterText K.i j st K.src[j]) := by
   have hok := hS.cells_ok _ (List.getElem_mem hj)
   obtain ⟨f, zs, ht⟩ := textCell_of hW hok (hS.emit_ok j hj) hh
@@ -216,7 +231,7 @@ theorem draw_text (K : Ctx W cb) (hW : WOk W) (hS : SrcOk W K.src) {j : Nat} (hj
   have hru := K.canvas.rows_u16
   have hi := K.hi
   have hfine : CellFine K.src[j] := cellFine_of_ok hok
-  refine ⟨emit_text_eq _ _ _ _ _ hh hfine, ?_⟩
+  refine ⟨emit_text_eq _ _ _ _ _ hh hfine w hrow, ?_⟩
   -- the move
   obtain ⟨Ri, hem, hline⟩ := hd
   have hl : Ri.cells.length = K.r0.g.size.cols := by rw [hline.length (Nat.le_of_lt hj), K.hsrc]
@@ -277,7 +292,8 @@ theorem draw_text (K : Ctx W cb) (hW : WOk W) (hS : SrcOk W K.src) {j : Nat} (hj
     simpa [afterText, Cell.isWide, hwide'] using h3
 
 /-- the invariant of the cell loop -/
-structure J (K : Ctx W cb) (j : Nat) (st : Row.FmtSt) : Prop where
+structure J (K : Ctx W cb) (w : Bool) (j : Nat) (st : Row.FmtSt) : Prop where
+  prow : w = true → st.prevPos.row = K.i
   ww : ∀ (_ : 0 < j) (hl : j ≤ K.src.length), st.prevWasWide = (K.src[j - 1]'(by omega)).wide
   w0 : j = 0 → st.prevWasWide = false
   A : st.prevWasWide = true → st.erase = none ∧ Drawn K (j + 1) st
@@ -291,10 +307,115 @@ theorem inv1_congr (K : Ctx W cb) {j : Nat} {st st' : Row.FmtSt} (h : Inv1 K j s
     rw [e]; exact drawn_congr K this ho hp ha
   · intro e a h'; rw [he] at h'; exact h.er e a h'
 
+/-- the second half of the per-cell body, from a state in which any finished erase run has been flushed -/
+theorem emit_inv (K : Ctx W cb) (hW : WOk W) (hS : SrcOk W K.src) {j : Nat} (hj : j < K.src.length) (w : Bool)
+    (hnc : K.src[j].cont = false) {st2 : Row.FmtSt} (hI2 : Inv1 K j st2) (hw2' : st2.prevWasWide = K.src[j].wide)
+    (hrow2 : w = true → st2.prevPos.row = K.i)
+    (hdisj : st2.erase = none ∨ ∃ e a, st2.erase = some (e, a) ∧ K.src[j].hasContents = false ∧ K.src[j].attrs = a) :
+    ∃ st', C03.emit K.src.length K.i w st2 j K.src[j] (!(K.src[j].eq Cell.new)) = .ok st' ∧ J K w (j + 1) st' := by
+  have hok := hS.cells_ok _ (List.getElem_mem hj)
+  by_cases hd : K.src[j].eq Cell.new = true
+  · -- the blank default cell: nothing is written
+    have hv : view K.src[j] = blankV := (eq_new_iff _).mp hd
+    have hnw : K.src[j].wide = false := (view_plain hv).1
+    have hat : K.src[j].attrs = Attrs.default := by
+      simp only [view, blankV, blankA, View.mk.injEq] at hv; exact hv.2.2.2.1
+    simp only [hd, Bool.not_true, C03.emit, Bool.false_eq_true, ↓reduceIte, pure_eq_ok]
+    refine ⟨st2, rfl, ⟨hrow2, ?_, ?_, ?_, ?_⟩⟩
+    · intro _ _; simp [hw2', hnw]
+    · intro h0; omega
+    · intro h'; rw [hw2', hnw] at h'; simp at h'
+    · intro _
+      rcases hdisj with hnone | ⟨e, a, hea, _, haa⟩
+      · refine ⟨?_, fun e a h' => by rw [hnone] at h'; simp at h'⟩
+        have := hI2.drawn
+        simp only [esK, hnone] at this ⊢
+        obtain ⟨Ri, hem, hl⟩ := this
+        exact ⟨Ri, hem, hl.skip hj hv⟩
+      · obtain ⟨h1, h2, h3, h4⟩ := hI2.er e a hea
+        refine ⟨?_, ?_⟩
+        · have := hI2.drawn; simp only [esK, hea] at this ⊢; exact this
+        · intro e' a' h'
+          rw [hea] at h'
+          simp only [Option.some.injEq, Prod.mk.injEq] at h'
+          obtain ⟨rfl, rfl⟩ := h'
+          refine ⟨by omega, h2, h3, ?_⟩
+          intro k hk hk1 hk2
+          by_cases hkj : k = j
+          · subst hkj; rw [hv, ← haa, hat]; rfl
+          · exact h4 k hk hk1 (by omega)
+  · have hd' : (!(K.src[j].eq Cell.new)) = true := by simpa using hd
+    rw [hd']
+    by_cases hh : K.src[j].hasContents = true
+    · -- text
+      have hnone : st2.erase = none := by
+        rcases hdisj with h1 | ⟨_, _, _, h2, _⟩
+        · exact h1
+        · rw [hh] at h2; simp at h2
+      have hdj : Drawn K j st2 := by have := hI2.drawn; simpa [esK, hnone] using this
+      obtain ⟨e3, hd3⟩ := draw_text K hW hS hj hdj hh w hrow2
+      refine ⟨_, e3, ⟨fun _ => rfl, ?_, ?_, ?_, ?_⟩⟩
+      · intro _ _; simp [afterText, hw2']
+      · intro h0; omega
+      · intro h'
+        have hwide : K.src[j].wide = true := by simpa [afterText, hw2'] using h'
+        refine ⟨by simpa [afterText] using hnone, ?_⟩
+        simpa [hwide] using hd3
+      · intro h'
+        have hwide : K.src[j].wide = false := by simpa [afterText, hw2'] using h'
+        refine ⟨?_, fun e a h'' => by simp [afterText, hnone] at h''⟩
+        have : esK (j + 1) (afterText K.i j st2 K.src[j]) = j + 1 := by simp [esK, afterText, hnone]
+        rw [this]
+        simpa [hwide] using hd3
+    · -- a blank cell with attributes: an erase run starts or goes on
+      have hh' : K.src[j].hasContents = false := by simpa using hh
+      have hbv := hS.blank_view j hj hh'
+      rw [hnc] at hbv
+      have hnw : K.src[j].wide = false := by
+        simp only [view, View.mk.injEq] at hbv; exact hbv.2.1
+      simp only [C03.emit, ↓reduceIte, hh', Bool.false_eq_true]
+      rcases hdisj with hnone | ⟨e, a, hea, _, haa⟩
+      · simp only [hnone, Option.isNone_none, ↓reduceIte, pure_eq_ok]
+        have hdj : Drawn K j st2 := by have := hI2.drawn; simpa [esK, hnone] using this
+        refine ⟨_, rfl, ⟨fun hw => hrow2 hw, ?_, ?_, ?_, ?_⟩⟩
+        · intro _ _; simp [hw2', hnw]
+        · intro h0; omega
+        · intro h'; simp only at h'; rw [hw2', hnw] at h'; simp at h'
+        · intro _
+          refine ⟨?_, ?_⟩
+          · simp only [esK]; exact drawn_congr K hdj rfl rfl rfl
+          · intro e' a' h'
+            simp only [Option.some.injEq, Prod.mk.injEq] at h'
+            obtain ⟨rfl, rfl⟩ := h'
+            refine ⟨by omega, hj, hS.wf j hj, ?_⟩
+            intro k hk hk1 hk2
+            have : k = j := by omega
+            subst this
+            rw [hbv]; rfl
+      · simp only [hea, Option.isNone_some, Bool.false_eq_true, ↓reduceIte, pure_eq_ok]
+        obtain ⟨h1, h2, h3, h4⟩ := hI2.er e a hea
+        refine ⟨st2, rfl, ⟨hrow2, ?_, ?_, ?_, ?_⟩⟩
+        · intro _ _; simp [hw2', hnw]
+        · intro h0; omega
+        · intro h'; rw [hw2', hnw] at h'; simp at h'
+        · intro _
+          refine ⟨?_, ?_⟩
+          · have := hI2.drawn; simp only [esK, hea] at this ⊢; exact this
+          · intro e' a' h'
+            rw [hea] at h'
+            simp only [Option.some.injEq, Prod.mk.injEq] at h'
+            obtain ⟨rfl, rfl⟩ := h'
+            refine ⟨by omega, h2, h3, ?_⟩
+            intro k hk hk1 hk2
+            by_cases hkj : k = j
+            · subst hkj; rw [hbv, haa]; rfl
+            · exact h4 k hk hk1 (by omega)
+
+
 /-- **one cell of the loop** -/
 theorem fmtStep_inv (K : Ctx W cb) (hW : WOk W) (hS : SrcOk W K.src) {j : Nat} (hj : j < K.src.length)
-    {st : Row.FmtSt} (h : J K j st) :
-    ∃ st', Row.fmtStep K.src.length K.i false st (j, K.src[j]) = .ok st' ∧ J K (j + 1) st' := by
+    {st : Row.FmtSt} (w : Bool) (h : J K w j st) :
+    ∃ st', Row.fmtStep K.src.length K.i w st (j, K.src[j]) = .ok st' ∧ J K w (j + 1) st' := by
   have hok := hS.cells_ok _ (List.getElem_mem hj)
   unfold Row.fmtStep
   simp only
@@ -310,7 +431,7 @@ theorem fmtStep_inv (K : Ctx W cb) (hW : WOk W) (hS : SrcOk W K.src) {j : Nat} (
     have hcont : K.src[j].cont = true := by
       rw [hS.cont_iff j hj, if_neg (by omega), ← hprev, hpw]
     have hnw : K.src[j].wide = false := (cellOk_cont W _ hok hcont).1
-    refine ⟨_, rfl, ⟨?_, ?_, ?_, ?_⟩⟩
+    refine ⟨_, rfl, ⟨fun hw => h.prow hw, ?_, ?_, ?_, ?_⟩⟩
     · intro _ _; simp [hnw]
     · intro h0; omega
     · intro h'; simp at h'
@@ -328,111 +449,16 @@ theorem fmtStep_inv (K : Ctx W cb) (hW : WOk W) (hS : SrcOk W K.src) {j : Nat} (
     have hB := h.B hpw'
     rw [C03.fmtCellStep_eq]
     have hB1 : Inv1 K j { st with prevWasWide := K.src[j].isWide } := inv1_congr K hB rfl rfl rfl rfl
-    obtain ⟨st2, e2, hI2, hw2, hdisj⟩ := flush_inv K hj hB1
+    obtain ⟨st2, e2, hI2, hw2, hrow2, hdisj⟩ := flush_inv K hj hB1 w (fun hw => h.prow hw)
     rw [e2]
     simp only [ok_bind]
     have hw2' : st2.prevWasWide = K.src[j].wide := hw2
-    by_cases hd : K.src[j].eq Cell.new = true
-    · -- the blank default cell: nothing is written
-      have hv : view K.src[j] = blankV := (eq_new_iff _).mp hd
-      have hnw : K.src[j].wide = false := (view_plain hv).1
-      have hat : K.src[j].attrs = Attrs.default := by
-        simp only [view, blankV, blankA, View.mk.injEq] at hv; exact hv.2.2.2.1
-      simp only [hd, Bool.not_true, C03.emit, Bool.false_eq_true, ↓reduceIte, pure_eq_ok]
-      refine ⟨st2, rfl, ⟨?_, ?_, ?_, ?_⟩⟩
-      · intro _ _; simp [hw2', hnw]
-      · intro h0; omega
-      · intro h'; rw [hw2', hnw] at h'; simp at h'
-      · intro _
-        rcases hdisj with hnone | ⟨e, a, hea, _, haa⟩
-        · refine ⟨?_, fun e a h' => by rw [hnone] at h'; simp at h'⟩
-          have := hI2.drawn
-          simp only [esK, hnone] at this ⊢
-          obtain ⟨Ri, hem, hl⟩ := this
-          exact ⟨Ri, hem, hl.skip hj hv⟩
-        · obtain ⟨h1, h2, h3, h4⟩ := hI2.er e a hea
-          refine ⟨?_, ?_⟩
-          · have := hI2.drawn; simp only [esK, hea] at this ⊢; exact this
-          · intro e' a' h'
-            rw [hea] at h'
-            simp only [Option.some.injEq, Prod.mk.injEq] at h'
-            obtain ⟨rfl, rfl⟩ := h'
-            refine ⟨by omega, h2, h3, ?_⟩
-            intro k hk hk1 hk2
-            by_cases hkj : k = j
-            · subst hkj; rw [hv, ← haa, hat]; rfl
-            · exact h4 k hk hk1 (by omega)
-    · have hd' : (!(K.src[j].eq Cell.new)) = true := by simpa using hd
-      rw [hd']
-      by_cases hh : K.src[j].hasContents = true
-      · -- text
-        have hnone : st2.erase = none := by
-          rcases hdisj with h1 | ⟨_, _, _, h2, _⟩
-          · exact h1
-          · rw [hh] at h2; simp at h2
-        have hdj : Drawn K j st2 := by have := hI2.drawn; simpa [esK, hnone] using this
-        obtain ⟨e3, hd3⟩ := draw_text K hW hS hj hdj hh
-        refine ⟨_, e3, ⟨?_, ?_, ?_, ?_⟩⟩
-        · intro _ _; simp [afterText, hw2']
-        · intro h0; omega
-        · intro h'
-          have hwide : K.src[j].wide = true := by simpa [afterText, hw2'] using h'
-          refine ⟨by simpa [afterText] using hnone, ?_⟩
-          simpa [hwide] using hd3
-        · intro h'
-          have hwide : K.src[j].wide = false := by simpa [afterText, hw2'] using h'
-          refine ⟨?_, fun e a h'' => by simp [afterText, hnone] at h''⟩
-          have : esK (j + 1) (afterText K.i j st2 K.src[j]) = j + 1 := by simp [esK, afterText, hnone]
-          rw [this]
-          simpa [hwide] using hd3
-      · -- a blank cell with attributes: an erase run starts or goes on
-        have hh' : K.src[j].hasContents = false := by simpa using hh
-        have hbv := hS.blank_view j hj hh'
-        rw [hnc] at hbv
-        have hnw : K.src[j].wide = false := by
-          simp only [view, View.mk.injEq] at hbv; exact hbv.2.1
-        simp only [C03.emit, ↓reduceIte, hh', Bool.false_eq_true]
-        rcases hdisj with hnone | ⟨e, a, hea, _, haa⟩
-        · simp only [hnone, Option.isNone_none, ↓reduceIte, pure_eq_ok]
-          have hdj : Drawn K j st2 := by have := hI2.drawn; simpa [esK, hnone] using this
-          refine ⟨_, rfl, ⟨?_, ?_, ?_, ?_⟩⟩
-          · intro _ _; simp [hw2', hnw]
-          · intro h0; omega
-          · intro h'; simp only at h'; rw [hw2', hnw] at h'; simp at h'
-          · intro _
-            refine ⟨?_, ?_⟩
-            · simp only [esK]; exact drawn_congr K hdj rfl rfl rfl
-            · intro e' a' h'
-              simp only [Option.some.injEq, Prod.mk.injEq] at h'
-              obtain ⟨rfl, rfl⟩ := h'
-              refine ⟨by omega, hj, hS.wf j hj, ?_⟩
-              intro k hk hk1 hk2
-              have : k = j := by omega
-              subst this
-              rw [hbv]; rfl
-        · simp only [hea, Option.isNone_some, Bool.false_eq_true, ↓reduceIte, pure_eq_ok]
-          obtain ⟨h1, h2, h3, h4⟩ := hI2.er e a hea
-          refine ⟨st2, rfl, ⟨?_, ?_, ?_, ?_⟩⟩
-          · intro _ _; simp [hw2', hnw]
-          · intro h0; omega
-          · intro h'; rw [hw2', hnw] at h'; simp at h'
-          · intro _
-            refine ⟨?_, ?_⟩
-            · have := hI2.drawn; simp only [esK, hea] at this ⊢; exact this
-            · intro e' a' h'
-              rw [hea] at h'
-              simp only [Option.some.injEq, Prod.mk.injEq] at h'
-              obtain ⟨rfl, rfl⟩ := h'
-              refine ⟨by omega, h2, h3, ?_⟩
-              intro k hk hk1 hk2
-              by_cases hkj : k = j
-              · subst hkj; rw [hbv, haa]; rfl
-              · exact h4 k hk hk1 (by omega)
+    exact emit_inv K hW hS hj w hnc hI2 hw2' hrow2 hdisj
 
 /-- the loop over the cells `j, j+1, …` of the line -/
-theorem fold_inv (K : Ctx W cb) (hW : WOk W) (hS : SrcOk W K.src) : ∀ (cs : List Cell) (j : Nat) (st : Row.FmtSt),
-    K.src.drop j = cs → j ≤ K.src.length → J K j st →
-    ∃ st', (C14.enumFrom j cs).foldlM (Row.fmtStep K.src.length K.i false) st = .ok st' ∧ J K K.src.length st'
+theorem fold_inv (K : Ctx W cb) (hW : WOk W) (hS : SrcOk W K.src) (w : Bool) : ∀ (cs : List Cell) (j : Nat) (st : Row.FmtSt),
+    K.src.drop j = cs → j ≤ K.src.length → J K w j st →
+    ∃ st', (C14.enumFrom j cs).foldlM (Row.fmtStep K.src.length K.i w) st = .ok st' ∧ J K w K.src.length st'
   | [], j, st, hcs, hjl, h => by
     have : j = K.src.length := by
       have := congrArg List.length hcs
@@ -453,8 +479,8 @@ theorem fold_inv (K : Ctx W cb) (hW : WOk W) (hS : SrcOk W K.src) : ∀ (cs : Li
     have hcs' : K.src.drop (j + 1) = cs := by
       have := congrArg List.tail hcs
       simpa [List.tail_drop] using this
-    obtain ⟨st1, e1, h1⟩ := fmtStep_inv K hW hS hj h
-    obtain ⟨st', e2, h2⟩ := fold_inv K hW hS cs (j + 1) st1 hcs' (by omega) h1
+    obtain ⟨st1, e1, h1⟩ := fmtStep_inv K hW hS hj w h
+    obtain ⟨st', e2, h2⟩ := fold_inv K hW hS w cs (j + 1) st1 hcs' (by omega) h1
     refine ⟨st', ?_, h2⟩
     have : C14.enumFrom j (c :: cs) = (j, c) :: C14.enumFrom (j + 1) cs := by
       simp [C14.enumFrom, List.zipIdx_cons]
@@ -462,8 +488,8 @@ theorem fold_inv (K : Ctx W cb) (hW : WOk W) (hS : SrcOk W K.src) : ∀ (cs : Li
     exact e2
 
 /-- the end of the line: a pending erase run becomes an EL -/
-theorem finish_drawn (K : Ctx W cb) (hS : SrcOk W K.src) (hne : 0 < K.src.length) {st : Row.FmtSt}
-    (h : J K K.src.length st) : Drawn K K.src.length (Row.fmtFinish K.src.length K.i false st) := by
+theorem finish_drawn (K : Ctx W cb) (hS : SrcOk W K.src) (hne : 0 < K.src.length) {st : Row.FmtSt} (w : Bool)
+    (h : J K w K.src.length st) : Drawn K K.src.length (Row.fmtFinish K.src.length K.i w st) := by
   have hpw : st.prevWasWide = false := by
     by_cases hp : st.prevWasWide = true
     · have := h.ww hne (Nat.le_refl _)
@@ -481,7 +507,7 @@ theorem finish_drawn (K : Ctx W cb) (hS : SrcOk W K.src) (hne : 0 < K.src.length
     obtain ⟨e, a⟩ := pa
     obtain ⟨hej, hel, hwf, hvs⟩ := hB.er e a he
     have hd : Drawn K e st := by have := hB.drawn; simpa [esK, he] using this
-    obtain ⟨hd', hp', ha', _, _⟩ := eraseMove_drawn K hd (Nat.le_of_lt hel) e a hel hwf
+    obtain ⟨hd', hp', ha', _, _⟩ := eraseMove_drawn K hd (Nat.le_of_lt hel) e a hel hwf w h.prow
     obtain ⟨Ri, hem, hline⟩ := hd'
     rw [hp', ha'] at hem
     obtain ⟨Ri', e1, hline'⟩ := shape_el K.canvas K.hi K.hsrc hline a (Nat.le_of_lt hel)
@@ -529,15 +555,15 @@ theorem row_formatted_draws (hW : WOk W) (p0 : Parser) (hr : Ready p0) (hcv : Ca
       ∃ Ri, Emitted W cb p0 out (shape (rsOf p0.ws) i Ri np na) ∧ Line sr.cells sr.cells.length Ri := by
   let K : Ctx W cb := ⟨p0, hr, rsOf p0.ws, hcv, i, hi, sr.cells, hlen⟩
   have hne : 0 < sr.cells.length := by rw [hlen]; exact hcv.cols_pos
-  have hJ0 : J K 0 (start (rsOf p0.ws).g.pos (rsOf p0.ws).pen) := by
-    refine ⟨fun h => absurd h (Nat.lt_irrefl 0), fun _ => rfl, fun h => by simp [start] at h, fun _ => ⟨?_, ?_⟩⟩
+  have hJ0 : J K false 0 (start (rsOf p0.ws).g.pos (rsOf p0.ws).pen) := by
+    refine ⟨fun h => by simp at h, fun h => absurd h (Nat.lt_irrefl 0), fun _ => rfl, fun h => by simp [start] at h, fun _ => ⟨?_, ?_⟩⟩
     · refine ⟨Ri0, ?_, hblank⟩
       show Emitted W cb p0 [] (shape (rsOf p0.ws) i Ri0 (rsOf p0.ws).g.pos (rsOf p0.ws).pen)
       rw [shape_self _ _ _ hrow]
       exact emitted_nil W cb p0 hr
     · intro e a h; simp [start] at h
-  obtain ⟨st', e, hJ⟩ := fold_inv K hW hS sr.cells 0 _ (by rfl) (Nat.zero_le _) hJ0
-  have hfin := finish_drawn K hS hne hJ
+  obtain ⟨st', e, hJ⟩ := fold_inv K hW hS false sr.cells 0 _ (by rfl) (Nat.zero_le _) hJ0
+  have hfin := finish_drawn K hS hne false hJ
   unfold Row.writeContentsFormatted
   simp only [pure_bind', Option.getD_some, Bool.false_and, Bool.false_eq_true, ↓reduceIte]
   have hwin : Row.window sr.cells 0 sr.cells.length = C14.enumFrom 0 sr.cells := by
@@ -548,5 +574,536 @@ theorem row_formatted_draws (hW : WOk W) (p0 : Parser) (hr : Ready p0) (hcv : Ca
   simp only [start] at e'
   simp only [Row.cols, e', ok_bind, pure_eq_ok]
   exact ⟨_, _, _, rfl, hfin⟩
+
+/-! ### wrap-through: the line above is wrapped onto this one -/
+
+/-- what is known when line `i - 1` is wrapped: it exists on the receiver and its last column is occupied -/
+structure WCtx (K : Ctx W cb) where
+  hi1 : 1 ≤ K.i
+  Rp : Row
+  hp : K.r0.g.rows[K.i - 1]? = some Rp
+  last : Cell
+  hlast : Rp.cells[K.r0.g.size.cols - 1]? = some last
+  hocc : (last.hasContents || last.cont) = true
+
+/-- the context once the wrap has been recorded on the receiver -/
+def Ctx.wrapped (K : Ctx W cb) (X : WCtx K) : Ctx W cb :=
+  { p0 := K.p0, ready := K.ready, r0 := wrapBase K.r0 K.i X.Rp, canvas := wrapBase_canvas K.canvas K.i X.hp,
+    i := K.i, hi := K.hi, src := K.src, hsrc := K.hsrc }
+
+/-- a space typed at the pending-wrap position of the line above, then BS: the wrap is recorded, the
+cursor is at the start of this line, whose first cell holds the space -/
+theorem space_bs (K : Ctx W cb) (hW : WOk W) (X : WCtx K) {out : List Nat} {Ri0 : Row} (pen : Attrs)
+    (hem : Emitted W cb K.p0 out (shape K.r0 K.i Ri0 ⟨K.i - 1, K.r0.g.size.cols⟩ pen)) (hl : Line K.src 0 Ri0) :
+    ∃ Ri1, Emitted W cb K.p0 (out ++ [32] ++ Term.backspace) (shape (K.wrapped X).r0 K.i Ri1 ⟨K.i, 0⟩ pen) ∧
+      LineX K.src 0 1 Ri1 := by
+  have hne : 0 < K.src.length := by rw [K.hsrc]; exact K.canvas.cols_pos
+  have hlen : Ri0.cells.length = K.r0.g.size.cols := by rw [hl.length (Nat.zero_le _), K.hsrc]
+  obtain ⟨c0, hc0, hv0, h220⟩ := hl.blank_at (Nat.zero_le _) 0 (Nat.le_refl _) hne
+  obtain ⟨hw0, hk0⟩ := view_plain hv0
+  have hw32 : (W 32).getD 1 = 1 := by rw [hW.space]; rfl
+  have hnc32 : ¬ (W 32 = none ∧ 32 < 256) := by rw [hW.space]; simp
+  -- the space
+  have hstep := step_text W cb [32] (by decide) (by
+    intro c hc
+    have : c = 32 := by simpa [Utf8.fromUtf8, Utf8.Res.cons] using hc
+    subst this
+    exact ⟨by omega, by omega, by omega⟩) (by decide)
+  have hchars : (Utf8.fromUtf8 [32]).chars = [32] := by decide
+  rw [hchars] at hstep
+  have hwrap := typeChars_wraps W K.canvas X.hi1 K.hi hlen X.hp X.hlast X.hocc pen 32 []
+    (by omega) (by have := K.canvas.cols_pos; omega) hnc32
+  have hrow' := shape_row (K.wrapped X).canvas K.hi Ri0 ⟨K.i, 0⟩ pen
+  obtain ⟨cellF, e, v, k⟩ := type_cell_narrow W (g := (shape (K.wrapped X).r0 K.i Ri0 ⟨K.i, 0⟩ pen).g)
+    (by simp only [shape]; exact K.canvas.cols_u16) pen 32 [] Ri0 c0 hw32 hnc32 (by simp)
+    (by simp only [shape]; have := K.canvas.cols_pos; exact this) hrow' (by simpa [shape] using hc0) hw0 hk0 h220 trivial
+  have h1 := emitted_step W cb K.ready hem hstep
+    (r' := shape (K.wrapped X).r0 K.i { Ri0 with cells := Ri0.cells.set 0 cellF } ⟨K.i, 1⟩ pen) (by
+      have : (shape K.r0 K.i Ri0 ⟨K.i - 1, K.r0.g.size.cols⟩ pen).pen = pen := rfl
+      rw [this, hwrap]
+      have e' : typeChars W pen [32] (shape (wrapBase K.r0 K.i X.Rp) K.i Ri0 ⟨K.i, 0⟩ pen).g = _ := e
+      rw [e']
+      simp [typed, shape, List.set_set, Ctx.wrapped, wrapBase])
+  have h2 := emitted_step W cb K.ready h1 (step_backspace W cb)
+    (r' := shape (K.wrapped X).r0 K.i { Ri0 with cells := Ri0.cells.set 0 cellF } ⟨K.i, 0⟩ pen) (by
+      simp [shape, Grid.colDec])
+  refine ⟨_, h2, ?_⟩
+  have hpl : cellF.wide = false ∧ cellF.cont = false := by
+    simp only [view, typedView, View.mk.injEq] at v
+    refine ⟨by rw [v.2.1, hw32]; rfl, v.2.2.1⟩
+  refine ⟨hl.unwrapped, ?_, by simp [hl.length (Nat.zero_le _)], fun k _ h0 => by omega, ?_, ?_⟩
+  · intro c hc
+    rcases List.mem_or_eq_of_mem_set hc with hc | rfl
+    · exact hl.len22 c hc
+    · exact k
+  · intro k _ hk1
+    have : k = 0 := by omega
+    subst this
+    have h0l : 0 < Ri0.cells.length := by rw [hlen]; exact K.canvas.cols_pos
+    simp [List.getElem?_set, h0l, hpl.1, hpl.2]
+  · intro k hk1 hkl
+    have := (hl.toX (Nat.zero_le _)).blank k (Nat.zero_le _) hkl
+    simp only [List.map_set, List.getElem?_set]
+    rw [if_neg (by omega)]
+    exact this
+
+/-- the wrap-forcing variant of the emitter's move: a space and a BS instead of a cursor move -/
+theorem eraseMove_wrap (K : Ctx W cb) (hW : WOk W) (X : WCtx K) {st : Row.FmtSt} {Ri0 : Row}
+    (hpos : st.prevPos = ⟨K.i - 1, K.r0.g.size.cols⟩)
+    (hem : Emitted W cb K.p0 st.out (shape K.r0 K.i Ri0 st.prevPos st.prevAttrs)) (hl : Line K.src 0 Ri0)
+    (a : Attrs) (hwf : Attrs.wf a) :
+    let st' := Row.eraseMove K.src.length K.i true st 0 a
+    st'.prevPos = ⟨K.i, 0⟩ ∧ st'.prevAttrs = a ∧ st'.erase = st.erase ∧ st'.prevWasWide = st.prevWasWide ∧
+      ∃ Ri1, Emitted W cb K.p0 st'.out (shape (K.wrapped X).r0 K.i Ri1 ⟨K.i, 0⟩ a) ∧ LineX K.src 0 1 Ri1 := by
+  have hcw : (true && st.prevPos.row + 1 == ({ row := K.i, col := 0 } : Pos).row &&
+      decide (st.prevPos.col ≥ K.src.length)) = true := by
+    have := X.hi1
+    simp [hpos, K.hsrc]; omega
+  rw [hpos] at hem
+  obtain ⟨Ri1, h1, hx⟩ := space_bs K hW X st.prevAttrs hem hl
+  simp only [Row.eraseMove, hcw, ↓reduceIte, Nat.lt_irrefl, gt_iff_lt]
+  by_cases hp : (st.prevAttrs != a) = true
+  · simp only [hp, ↓reduceIte]
+    have h2 := emitted_step W cb K.ready h1 (step_pen W cb a st.prevAttrs hwf)
+      (r' := shape (K.wrapped X).r0 K.i Ri1 ⟨K.i, 0⟩ a) (by simp [shape])
+    exact ⟨(by first | rfl | trivial), (by first | rfl | trivial), (by first | rfl | trivial), (by first | rfl | trivial),
+      Ri1, by simpa [List.append_assoc] using h2, hx⟩
+  · have hpa : st.prevAttrs = a := by simpa using hp
+    simp only [hp, Bool.false_eq_true, ↓reduceIte, List.append_nil]
+    exact ⟨(by first | rfl | trivial), (by first | exact hpa | trivial), (by first | rfl | trivial),
+      (by first | rfl | trivial), Ri1, by rw [hpa] at h1; simpa [List.append_assoc] using h1, hx⟩
+
+/-- nothing has been written for this line yet: the receiver's cursor still sits at the pending-wrap
+position of the line above; at most an erase run starting in column 0 is being collected -/
+structure Pend (K : Ctx W cb) (pa : Attrs) (j : Nat) (st : Row.FmtSt) : Prop where
+  out : st.out = []
+  pos : st.prevPos = ⟨K.i - 1, K.r0.g.size.cols⟩
+  pen : st.prevAttrs = pa
+  pww : st.prevWasWide = false
+  er : (j = 0 ∧ st.erase = none) ∨
+    (∃ a, st.erase = some (0, a) ∧ 1 ≤ j ∧ Attrs.wf a ∧ ∀ k (hk : k < K.src.length), k < j → view K.src[k] = blankA a)
+
+/-- the emitter state after the first cell of a wrapped-onto line when that cell holds text: no move -/
+def afterTextW (i : Nat) (st : Row.FmtSt) (c : Cell) : Row.FmtSt :=
+  { prevWasWide := st.prevWasWide
+    prevPos := ⟨i, 0 + (if c.isWide then 2 else 1)⟩
+    prevAttrs := c.attrs
+    erase := st.erase
+    out := (st.out ++ (if (st.prevAttrs != c.attrs) = true then c.attrs.writeEscapeCodeDiff st.prevAttrs else [])) ++
+           c.contents.take c.len }
+
+theorem emit_text_wrap_eq (n i : Nat) (st : Row.FmtSt) (c : Cell) (hh : c.hasContents = true) (hf : CellFine c)
+    (hi1 : 1 ≤ i) (hpos : st.prevPos = ⟨i - 1, n⟩) :
+    C03.emit n i true st 0 c true = .ok (afterTextW i st c) := by
+  unfold C03.emit
+  have hne : (({ row := i, col := 0 } : Pos) != st.prevPos) = true := by
+    rw [hpos]; simp; omega
+  have hmv : (!true || st.prevPos.row + 1 != ({ row := i, col := 0 } : Pos).row ||
+      decide (st.prevPos.col < n - if c.isWide = true then 1 else 0) ||
+      ({ row := i, col := 0 } : Pos).col != 0) = false := by
+    rw [hpos]; simp; omega
+  simp only [↓reduceIte, hh, contentsBytes_ok hf, hne, hmv, Bool.false_eq_true, List.append_nil]
+  by_cases h2 : (st.prevAttrs != c.attrs) = true
+  · simp [afterTextW, h2]
+  · have : st.prevAttrs = c.attrs := by simpa using h2
+    simp [afterTextW, h2, this]
+
+/-- the first cell of a wrapped-onto line holds text: pen change, then the text — typed at the pending-wrap
+position of the line above, so that the receiver records the wrap -/
+theorem draw_text_wrap (K : Ctx W cb) (hW : WOk W) (hS : SrcOk W K.src) (X : WCtx K) (hne : 0 < K.src.length)
+    {st : Row.FmtSt} {Ri0 : Row} (hpos : st.prevPos = ⟨K.i - 1, K.r0.g.size.cols⟩)
+    (hem : Emitted W cb K.p0 st.out (shape K.r0 K.i Ri0 st.prevPos st.prevAttrs)) (hl : Line K.src 0 Ri0)
+    (hh : K.src[0].hasContents = true) :
+    C03.emit K.src.length K.i true st 0 K.src[0] true = .ok (afterTextW K.i st K.src[0]) ∧
+      Drawn (K.wrapped X) (0 + (if K.src[0].wide then 2 else 1)) (afterTextW K.i st K.src[0]) := by
+  have hok := hS.cells_ok _ (List.getElem_mem hne)
+  obtain ⟨f, zs, ht⟩ := textCell_of hW hok (hS.emit_ok 0 hne) hh
+  have hfine : CellFine K.src[0] := cellFine_of_ok hok
+  refine ⟨emit_text_wrap_eq _ _ _ _ hh hfine X.hi1 (by rw [hpos, K.hsrc]), ?_⟩
+  have hlen : Ri0.cells.length = K.r0.g.size.cols := by rw [hl.length (Nat.zero_le _), K.hsrc]
+  rw [hpos] at hem
+  -- the pen
+  have h2 : Emitted W cb K.p0 (st.out ++
+        (if (st.prevAttrs != K.src[0].attrs) = true then K.src[0].attrs.writeEscapeCodeDiff st.prevAttrs else []))
+      (shape K.r0 K.i Ri0 ⟨K.i - 1, K.r0.g.size.cols⟩ K.src[0].attrs) := by
+    by_cases hp : (st.prevAttrs != K.src[0].attrs) = true
+    · simp only [hp, ↓reduceIte]
+      exact emitted_step W cb K.ready hem (step_pen W cb K.src[0].attrs st.prevAttrs (hS.wf 0 hne))
+        (r' := shape K.r0 K.i Ri0 ⟨K.i - 1, K.r0.g.size.cols⟩ K.src[0].attrs) (by simp [shape])
+    · have hpa : st.prevAttrs = K.src[0].attrs := by simpa using hp
+      simp only [hp, Bool.false_eq_true, ↓reduceIte, List.append_nil]
+      rw [← hpa]; exact hem
+  -- the text, typed at the pending-wrap position
+  have hstep := step_text W cb (K.src[0].contents.take K.src[0].len) ht.valid
+    (by rw [ht.chars]; exact ht.plain) ht.noesc
+  rw [ht.chars] at hstep
+  have hfit : (W f).getD 1 ≤ K.r0.g.size.cols := by have := ht.fits; rw [K.hsrc] at this; omega
+  have hwrap := typeChars_wraps W K.canvas X.hi1 K.hi hlen X.hp X.hlast X.hocc K.src[0].attrs f zs ht.width hfit ht.first
+  have hlK : Line (K.wrapped X).src 0 Ri0 := hl
+  by_cases hwide : K.src[0].wide = true
+  · have hw2 : 2 ≤ (W f).getD 1 := by
+      have := ht.wide; rw [hwide] at this
+      have h' : 1 < (W f).getD 1 := by simpa using this.symm
+      omega
+    obtain ⟨hj1, hc1⟩ := hS.wide_next 0 hne hwide
+    obtain ⟨Ri', e, hline'⟩ := shape_type_wide W (K.wrapped X).canvas K.hi K.hsrc hlK hj1 ht hw2
+      (hS.cont_view 1 hj1 hc1)
+    have h3 := emitted_step W cb K.ready h2 hstep (r' := shape (K.wrapped X).r0 K.i Ri' ⟨K.i, 0 + 2⟩ K.src[0].attrs) (by
+      have : (shape K.r0 K.i Ri0 ⟨K.i - 1, K.r0.g.size.cols⟩ K.src[0].attrs).pen = K.src[0].attrs := rfl
+      rw [this, hwrap]
+      have e' : typeChars W K.src[0].attrs (f :: zs) (shape (wrapBase K.r0 K.i X.Rp) K.i Ri0 ⟨K.i, 0⟩ K.src[0].attrs).g = _ := e
+      rw [e']; rfl)
+    simp only [hwide, ↓reduceIte]
+    refine ⟨Ri', ?_, hline'⟩
+    show Emitted W cb K.p0 (afterTextW K.i st K.src[0]).out (shape (K.wrapped X).r0 K.i Ri'
+      (afterTextW K.i st K.src[0]).prevPos (afterTextW K.i st K.src[0]).prevAttrs)
+    simpa [afterTextW, Cell.isWide, hwide] using h3
+  · have hwide' : K.src[0].wide = false := by simpa using hwide
+    have hw1 : (W f).getD 1 = 1 := by
+      have := ht.wide; rw [hwide'] at this
+      have h' : ¬ 1 < (W f).getD 1 := by simpa using this.symm
+      have := ht.width
+      omega
+    obtain ⟨Ri', e, hline'⟩ := shape_type_narrow W (K.wrapped X).canvas K.hi K.hsrc hlK hne ht hw1
+    have h3 := emitted_step W cb K.ready h2 hstep (r' := shape (K.wrapped X).r0 K.i Ri' ⟨K.i, 0 + 1⟩ K.src[0].attrs) (by
+      have : (shape K.r0 K.i Ri0 ⟨K.i - 1, K.r0.g.size.cols⟩ K.src[0].attrs).pen = K.src[0].attrs := rfl
+      rw [this, hwrap]
+      have e' : typeChars W K.src[0].attrs (f :: zs) (shape (wrapBase K.r0 K.i X.Rp) K.i Ri0 ⟨K.i, 0⟩ K.src[0].attrs).g = _ := e
+      rw [e']; rfl)
+    simp only [hwide', Bool.false_eq_true, ↓reduceIte]
+    refine ⟨Ri', ?_, hline'⟩
+    show Emitted W cb K.p0 (afterTextW K.i st K.src[0]).out (shape (K.wrapped X).r0 K.i Ri'
+      (afterTextW K.i st K.src[0]).prevPos (afterTextW K.i st K.src[0]).prevAttrs)
+    simpa [afterTextW, Cell.isWide, hwide'] using h3
+
+/-- the state after an erase run has been flushed with `ECH n` -/
+def flushed (st : Row.FmtSt) (n : Nat) : Row.FmtSt :=
+  { st with out := st.out ++ Term.eraseChar n, erase := none }
+
+/-- the emitter state while nothing has been written for the wrapped-onto line -/
+def pendSt (K : Ctx W cb) (pa : Attrs) (pw : Bool) (er : Option (Nat × Attrs)) : Row.FmtSt :=
+  { prevWasWide := pw, prevPos := ⟨K.i - 1, K.r0.g.size.cols⟩, prevAttrs := pa, erase := er, out := [] }
+
+theorem Pend.eq {K : Ctx W cb} {pa : Attrs} {j : Nat} {st : Row.FmtSt} (h : Pend K pa j st) :
+    st = pendSt K pa false st.erase := by
+  obtain ⟨pw, pp, pat, er, out⟩ := st
+  have h1 := h.out; have h2 := h.pos; have h3 := h.pen; have h4 := h.pww
+  simp only at h1 h2 h3 h4
+  subst h1 h2 h3 h4
+  rfl
+
+/-- **one cell while nothing has been written for the wrapped-onto line yet** -/
+theorem pending_step (K : Ctx W cb) (hW : WOk W) (hS : SrcOk W K.src) (X : WCtx K) {pa : Attrs} {Ri0 : Row}
+    (hem0 : Emitted W cb K.p0 [] (shape K.r0 K.i Ri0 ⟨K.i - 1, K.r0.g.size.cols⟩ pa)) (hl0 : Line K.src 0 Ri0)
+    {j : Nat} (hj : j < K.src.length) {st : Row.FmtSt} (h : Pend K pa j st)
+    (hfirst : j = 0 → (K.src[0]'(by omega)).eq Cell.new = false) :
+    ∃ st', Row.fmtStep K.src.length K.i true st (j, K.src[j]) = .ok st' ∧
+      (Pend K pa (j + 1) st' ∨ J (K.wrapped X) true (j + 1) st') := by
+  have hne : 0 < K.src.length := by omega
+  have hok := hS.cells_ok _ (List.getElem_mem hj)
+  have her := h.er
+  rw [h.eq] at her ⊢
+  generalize st.erase = er at her
+  clear h st
+  have hemP : ∀ pw er, Emitted W cb K.p0 (pendSt K pa pw er).out
+      (shape K.r0 K.i Ri0 (pendSt K pa pw er).prevPos (pendSt K pa pw er).prevAttrs) := fun _ _ => hem0
+  unfold Row.fmtStep
+  simp only [pendSt, Bool.false_eq_true, ↓reduceIte]
+  rw [C03.fmtCellStep_eq]
+  rcases her with ⟨hj0, hnone⟩ | ⟨a, hea, hj1, hwf, hvs⟩
+  · -- column 0, nothing pending
+    subst hj0
+    simp only [pendSt] at hnone
+    subst hnone
+    have hd : (!(K.src[0].eq Cell.new)) = true := by simp [hfirst rfl]
+    simp only [C03.flush, pure_bind', ok_bind, hd]
+    by_cases hh : K.src[0].hasContents = true
+    · obtain ⟨e3, hd3⟩ := draw_text_wrap K hW hS X hne (st := pendSt K pa K.src[0].isWide none)
+        rfl (hemP _ _) hl0 hh
+      refine ⟨_, e3, Or.inr ⟨fun _ => rfl, ?_, fun h0 => by omega, ?_, ?_⟩⟩
+      · intro _ _; simp [afterTextW, pendSt, Cell.isWide]; rfl
+      · intro h'
+        have hwide : K.src[0].wide = true := by simpa [afterTextW, pendSt, Cell.isWide] using h'
+        refine ⟨by simp [afterTextW, pendSt], ?_⟩
+        have := hd3; simp only [hwide, ↓reduceIte] at this
+        simpa using this
+      · intro h'
+        have hwide : K.src[0].wide = false := by simpa [afterTextW, pendSt, Cell.isWide] using h'
+        refine ⟨?_, fun e a h'' => by simp [afterTextW, pendSt] at h''⟩
+        have he : esK (0 + 1) (afterTextW K.i (pendSt K pa K.src[0].isWide none) K.src[0]) = 0 + 1 := by
+          simp [esK, afterTextW, pendSt]
+        rw [he]
+        have := hd3; simp only [hwide, Bool.false_eq_true, ↓reduceIte] at this
+        exact this
+    · have hh' : K.src[0].hasContents = false := by simpa using hh
+      have hnc : K.src[0].cont = false := by rw [hS.cont_iff 0 hne]; simp
+      have hbv := hS.blank_view 0 hne hh'
+      rw [hnc] at hbv
+      have hnw : K.src[0].wide = false := by simp only [view, View.mk.injEq] at hbv; exact hbv.2.1
+      simp only [C03.emit, ↓reduceIte, hh', Bool.false_eq_true, Option.isNone_none, pure_eq_ok]
+      refine ⟨_, rfl, Or.inl ⟨rfl, rfl, rfl, by simp [Cell.isWide, hnw], Or.inr ⟨K.src[0].attrs, rfl, by omega, hS.wf 0 hne, ?_⟩⟩⟩
+      intro k hk hk1
+      have : k = 0 := by omega
+      subst this
+      rw [hbv]; rfl
+  · -- an erase run from column 0 is being collected
+    simp only [pendSt] at hea
+    subst hea
+    have hnc : K.src[j].cont = false := by
+      rw [hS.cont_iff j hj, if_neg (by omega)]
+      have := hvs (j - 1) (by omega) (by omega)
+      simp only [view, blankA, View.mk.injEq] at this
+      exact this.2.1
+    by_cases hcond : (K.src[j].hasContents || K.src[j].attrs != a) = true
+    · -- the run ends here: space, BS, pen, ECH — and from now on the line is started
+      obtain ⟨hp', ha', he', hw', Ri1, hem1, hx1⟩ := eraseMove_wrap K hW X (st := pendSt K pa K.src[j].isWide (some (0, a)))
+        rfl (hemP _ _) hl0 a hwf
+      simp only [pendSt] at hp' ha' he' hw' hem1
+      simp only [C03.flush, hcond, ↓reduceIte, subM_ok (Nat.zero_le _), pure_bind', ok_bind, Nat.sub_zero]
+      have hu := K.canvas.cols_u16
+      obtain ⟨Ri', e1, hline'⟩ := shape_eraseX (K.wrapped X).canvas K.hi hx1 j a (Nat.zero_le _) hj1 (Nat.le_of_lt hj)
+        (fun k hk _ h2 => hvs k hk h2)
+      have hmin : min (satAddU16 0 j) K.r0.g.size.cols = j := by
+        simp only [satAddU16, U16_MAX]; rw [← K.hsrc]; rw [← K.hsrc] at hu; omega
+      have hech := emitted_step W cb K.ready hem1 (step_eraseChar W cb j (by rw [← K.hsrc] at hu; omega))
+        (r' := shape (K.wrapped X).r0 K.i Ri' ⟨K.i, 0⟩ a) (by
+          simp only [show ¬ j = 0 by omega, ↓reduceIte]
+          have hpen : (shape (K.wrapped X).r0 K.i Ri1 ⟨K.i, 0⟩ a).pen = a := rfl
+          rw [hpen]
+          unfold Grid.eraseCells
+          have hpos : (shape (K.wrapped X).r0 K.i Ri1 ⟨K.i, 0⟩ a).g.pos = ⟨K.i, 0⟩ := rfl
+          have hsz : (shape (K.wrapped X).r0 K.i Ri1 ⟨K.i, 0⟩ a).g.size = K.r0.g.size := rfl
+          simp only [hpos, hsz, hmin]
+          rw [e1]; rfl)
+      have hI2 : Inv1 (K.wrapped X) j
+          (flushed (Row.eraseMove K.src.length K.i true (pendSt K pa K.src[j].isWide (some (0, a))) 0 a) j) := by
+        refine ⟨⟨Ri', ?_, hline'⟩, fun e a h' => by simp [flushed] at h'⟩
+        simp only [flushed, pendSt, hp', ha']
+        exact hech
+      obtain ⟨st3, e3, hJ3⟩ := emit_inv (K.wrapped X) hW hS hj true hnc hI2 (by simp only [flushed, pendSt]; rw [hw']; rfl)
+        (fun _ => by simp only [flushed, pendSt, hp']; rfl) (Or.inl rfl)
+      exact ⟨st3, e3, Or.inr hJ3⟩
+    · -- the run goes on
+      simp only [C03.flush, hcond, Bool.false_eq_true, ↓reduceIte, pure_bind', ok_bind]
+      simp only [Bool.or_eq_true, bne_iff_ne, ne_eq, not_or, Bool.not_eq_true, Decidable.not_not] at hcond
+      have hbv := hS.blank_view j hj hcond.1
+      rw [hnc] at hbv
+      have hnw : K.src[j].wide = false := by simp only [view, View.mk.injEq] at hbv; exact hbv.2.1
+      have hemit : C03.emit K.src.length K.i true (pendSt K pa K.src[j].isWide (some (0, a))) j K.src[j]
+          (!(K.src[j].eq Cell.new)) = .ok (pendSt K pa K.src[j].isWide (some (0, a))) := by
+        simp only [C03.emit, hcond.1, Bool.false_eq_true, ↓reduceIte, pendSt, Option.isNone_some, pure_eq_ok]
+        split <;> rfl
+      refine ⟨_, hemit, Or.inl ⟨rfl, rfl, rfl, by simp [pendSt, Cell.isWide, hnw], Or.inr ⟨a, rfl, by omega, hwf, ?_⟩⟩⟩
+      intro k hk hk1
+      by_cases hkj : k = j
+      · subst hkj; rw [hbv, hcond.2]; rfl
+      · exact hvs k hk (by omega)
+
+/-- the loop on a wrapped-onto line, as long as nothing has been written -/
+theorem pending_fold (K : Ctx W cb) (hW : WOk W) (hS : SrcOk W K.src) (X : WCtx K) {pa : Attrs} {Ri0 : Row}
+    (hem0 : Emitted W cb K.p0 [] (shape K.r0 K.i Ri0 ⟨K.i - 1, K.r0.g.size.cols⟩ pa)) (hl0 : Line K.src 0 Ri0)
+    (hfirst : ∀ h : 0 < K.src.length, K.src[0].eq Cell.new = false) :
+    ∀ (cs : List Cell) (j : Nat) (st : Row.FmtSt), K.src.drop j = cs → j ≤ K.src.length → Pend K pa j st →
+    ∃ st', (C14.enumFrom j cs).foldlM (Row.fmtStep K.src.length K.i true) st = .ok st' ∧
+      (Pend K pa K.src.length st' ∨ J (K.wrapped X) true K.src.length st')
+  | [], j, st, hcs, hjl, h => by
+    have : j = K.src.length := by
+      have := congrArg List.length hcs
+      simp only [List.length_drop, List.length_nil] at this
+      omega
+    subst this
+    exact ⟨st, rfl, Or.inl h⟩
+  | c :: cs, j, st, hcs, hjl, h => by
+    have hj : j < K.src.length := by
+      have := congrArg List.length hcs
+      simp only [List.length_drop, List.length_cons] at this
+      omega
+    have hc : K.src[j] = c := by
+      have := congrArg (fun l => l[0]?) hcs
+      simp only [List.getElem?_drop, Nat.add_zero, List.getElem?_eq_getElem hj, List.getElem?_cons_zero,
+        Option.some.injEq] at this
+      exact this
+    have hcs' : K.src.drop (j + 1) = cs := by
+      have := congrArg List.tail hcs
+      simpa [List.tail_drop] using this
+    have hen : C14.enumFrom j (c :: cs) = (j, c) :: C14.enumFrom (j + 1) cs := by
+      simp [C14.enumFrom, List.zipIdx_cons]
+    obtain ⟨st1, e1, h1⟩ := pending_step K hW hS X hem0 hl0 hj h (fun h0 => hfirst (by omega))
+    rw [hen, List.foldlM_cons, ← hc, e1]
+    simp only [ok_bind]
+    rcases h1 with h1 | h1
+    · exact pending_fold K hW hS X hem0 hl0 hfirst cs (j + 1) st1 hcs' (by omega) h1
+    · obtain ⟨st', e2, h2⟩ := fold_inv (K.wrapped X) hW hS true cs (j + 1) st1 hcs'
+        (by show j + 1 ≤ K.src.length; omega) h1
+      exact ⟨st', e2, Or.inr h2⟩
+
+/-- the end of a wrapped-onto line for which nothing had been written: the whole line is one erase run -/
+theorem finish_pending (K : Ctx W cb) (hW : WOk W) (X : WCtx K) (hne : 0 < K.src.length) {pa : Attrs}
+    {Ri0 : Row} (hem0 : Emitted W cb K.p0 [] (shape K.r0 K.i Ri0 ⟨K.i - 1, K.r0.g.size.cols⟩ pa))
+    (hl0 : Line K.src 0 Ri0) {st : Row.FmtSt} (h : Pend K pa K.src.length st) :
+    Drawn (K.wrapped X) K.src.length (Row.fmtFinish K.src.length K.i true st) := by
+  have her := h.er
+  rw [h.eq] at her ⊢
+  generalize st.erase = er at her
+  rcases her with ⟨h0, _⟩ | ⟨a, hea, _, hwf, hvs⟩
+  · omega
+  · simp only [pendSt] at hea
+    subst hea
+    obtain ⟨hp', ha', _, _, Ri1, hem1, hx1⟩ := eraseMove_wrap K hW X (st := pendSt K pa false (some (0, a)))
+      rfl hem0 hl0 a hwf
+    obtain ⟨Ri', e1, hline'⟩ := shape_eraseX (K.wrapped X).canvas K.hi hx1 K.src.length a (Nat.zero_le _) hne
+      (Nat.le_refl _) (fun k hk _ h2 => hvs k hk h2)
+    have hel := emitted_step W cb K.ready hem1 (step_clearRowForward W cb)
+      (r' := shape (K.wrapped X).r0 K.i Ri' ⟨K.i, 0⟩ a) (by
+        have hpen : (shape (K.wrapped X).r0 K.i Ri1 ⟨K.i, 0⟩ a).pen = a := rfl
+        rw [hpen]
+        unfold Grid.eraseRowForward
+        have hpos : (shape (K.wrapped X).r0 K.i Ri1 ⟨K.i, 0⟩ a).g.pos = ⟨K.i, 0⟩ := rfl
+        have hsz : (shape (K.wrapped X).r0 K.i Ri1 ⟨K.i, 0⟩ a).g.size = K.r0.g.size := rfl
+        simp only [hpos, hsz, ← K.hsrc]
+        rw [e1]; rfl)
+    simp only [Row.fmtFinish, pendSt]
+    refine ⟨Ri', ?_, hline'⟩
+    simp only [pendSt] at hp' ha' hel
+    simp only [hp', ha']
+    exact hel
+
+theorem line_unskip {src : List Cell} {Ri : Row} (h : Line src 1 Ri) (hne : 0 < src.length) (hv : view src[0] = blankV) :
+    Line src 0 Ri := by
+  refine ⟨h.unwrapped, ?_, h.len22⟩
+  rw [h.views]
+  have : src.take 1 = [src[0]] := by
+    cases src with
+    | nil => simp at hne
+    | cons x xs => simp
+  rw [this]
+  simp only [List.map_cons, List.map_nil, hv, List.take_zero, List.nil_append, Nat.sub_zero]
+  rw [show src.length = (src.length - 1) + 1 by omega, List.replicate_succ]
+  simp
+
+theorem wf_default : Attrs.wf Attrs.default := ⟨trivial, trivial⟩
+
+/-- the emitter state after the preamble of a wrapped-onto line whose first cell is the blank default cell -/
+def preamble (i : Nat) (pa : Attrs) : Row.FmtSt :=
+  { prevWasWide := false
+    prevPos := ⟨i, 0⟩
+    prevAttrs := Attrs.default
+    erase := none
+    out := (if (pa != Attrs.default) = true then Attrs.default.writeEscapeCodeDiff pa else []) ++ [32] ++
+      Term.backspace ++ Term.eraseChar 1 }
+
+/-- the preamble `[pen := default] SP BS ECH 1`: the wrap is recorded and the line is blank again -/
+theorem preamble_inv (K : Ctx W cb) (hW : WOk W) (X : WCtx K) (hne : 0 < K.src.length) {pa : Attrs} {Ri0 : Row}
+    (hem0 : Emitted W cb K.p0 [] (shape K.r0 K.i Ri0 ⟨K.i - 1, K.r0.g.size.cols⟩ pa)) (hl0 : Line K.src 0 Ri0)
+    (hv0 : view K.src[0] = blankV) : J (K.wrapped X) true 0 (preamble K.i pa) := by
+  -- the pen
+  have h1 : Emitted W cb K.p0 (if (pa != Attrs.default) = true then Attrs.default.writeEscapeCodeDiff pa else [])
+      (shape K.r0 K.i Ri0 ⟨K.i - 1, K.r0.g.size.cols⟩ Attrs.default) := by
+    by_cases hp : (pa != Attrs.default) = true
+    · simp only [hp, ↓reduceIte]
+      have := emitted_step W cb K.ready hem0 (step_pen W cb Attrs.default pa wf_default)
+        (r' := shape K.r0 K.i Ri0 ⟨K.i - 1, K.r0.g.size.cols⟩ Attrs.default) (by simp [shape])
+      simpa using this
+    · have hpa : pa = Attrs.default := by simpa using hp
+      simp only [hp, Bool.false_eq_true, ↓reduceIte]
+      rw [← hpa]; exact hem0
+  obtain ⟨Ri1, h2, hx1⟩ := space_bs K hW X Attrs.default h1 hl0
+  obtain ⟨Ri', e1, hline'⟩ := shape_eraseX (K.wrapped X).canvas K.hi hx1 1 Attrs.default (Nat.zero_le _)
+    (Nat.le_refl _) hne (fun k hk _ h2 => by
+      have : k = 0 := by omega
+      subst this
+      exact hv0)
+  have hu := K.canvas.cols_u16
+  have hc1 := K.canvas.cols_pos
+  have hmin : min (satAddU16 0 1) K.r0.g.size.cols = 1 := by simp only [satAddU16, U16_MAX]; omega
+  have h3 := emitted_step W cb K.ready h2 (step_eraseChar W cb 1 (by omega))
+    (r' := shape (K.wrapped X).r0 K.i Ri' ⟨K.i, 0⟩ Attrs.default) (by
+      simp only [show ¬ (1 = 0) by omega, ↓reduceIte]
+      have hpen : (shape (K.wrapped X).r0 K.i Ri1 ⟨K.i, 0⟩ Attrs.default).pen = Attrs.default := rfl
+      rw [hpen]
+      unfold Grid.eraseCells
+      have hpos : (shape (K.wrapped X).r0 K.i Ri1 ⟨K.i, 0⟩ Attrs.default).g.pos = ⟨K.i, 0⟩ := rfl
+      have hsz : (shape (K.wrapped X).r0 K.i Ri1 ⟨K.i, 0⟩ Attrs.default).g.size = K.r0.g.size := rfl
+      simp only [hpos, hsz, hmin]
+      rw [e1]; rfl)
+  refine ⟨fun _ => rfl, fun h => absurd h (Nat.lt_irrefl 0), fun _ => rfl, fun h => by simp [preamble] at h,
+    fun _ => ⟨⟨Ri', ?_, line_unskip hline' hne hv0⟩, fun e a h => by simp [preamble] at h⟩⟩
+  show Emitted W cb K.p0 (preamble K.i pa).out (shape (K.wrapped X).r0 K.i Ri' ⟨K.i, 0⟩ Attrs.default)
+  simpa [preamble, List.append_assoc] using h3
+
+/-- `write_contents_formatted` on a wrapped-onto line whose first cell is blank: the preamble, then the loop -/
+theorem wcf_preamble (sr : Row) (i : Nat) (pp : Pos) (pa : Attrs) (hfd : sr.firstIsDefault 0 = true) :
+    sr.writeContentsFormatted 0 sr.cells.length i true (some pp) (some pa) =
+      ((Row.window sr.cells 0 sr.cells.length).foldlM (Row.fmtStep sr.cells.length i true) (preamble i pa) >>=
+        fun st => pure ((Row.fmtFinish sr.cells.length i true st).out, (Row.fmtFinish sr.cells.length i true st).prevPos,
+          (Row.fmtFinish sr.cells.length i true st).prevAttrs)) := by
+  unfold Row.writeContentsFormatted
+  simp only [pure_bind', Option.getD_some, Bool.true_and, hfd, ↓reduceIte, Row.cols]
+  by_cases hp : (pa != Attrs.default) = true
+  · simp [preamble, hp, Cell.new]
+  · have : pa = Attrs.default := by simpa using hp
+    simp [preamble, this, Cell.new]
+
+/-- … and when its first cell is not blank: the plain start state with the cursor on the line above -/
+theorem wcf_pending (sr : Row) (i : Nat) (pp : Pos) (pa : Attrs) (hfd : sr.firstIsDefault 0 = false) :
+    sr.writeContentsFormatted 0 sr.cells.length i true (some pp) (some pa) =
+      ((Row.window sr.cells 0 sr.cells.length).foldlM (Row.fmtStep sr.cells.length i true) (start pp pa) >>=
+        fun st => pure ((Row.fmtFinish sr.cells.length i true st).out, (Row.fmtFinish sr.cells.length i true st).prevPos,
+          (Row.fmtFinish sr.cells.length i true st).prevAttrs)) := by
+  unfold Row.writeContentsFormatted
+  simp only [pure_bind', Option.getD_some, Bool.true_and, hfd, Bool.false_eq_true, ↓reduceIte, Row.cols, start]
+
+/-- **one line of a redraw, wrap-through** (`wrapping = true`): the line above is wrapped, its last column is
+occupied and the receiver's cursor sits at its pending-wrap position.  Processing the bytes of
+`write_contents_formatted` records the wrap on the line above (its wrap flag becomes true — by the
+receiver's own autowrap), makes line `i` show the source line, and changes nothing else. -/
+theorem row_formatted_draws_wrap (hW : WOk W) (p0 : Parser) (hr : Ready p0) (hcv : Canvas (rsOf p0.ws).g)
+    (i : Nat) (hi1 : 1 ≤ i) (hi : i < (rsOf p0.ws).g.size.rows) (sr : Row)
+    (hlen : sr.cells.length = (rsOf p0.ws).g.size.cols) (hS : SrcOk W sr.cells)
+    (Ri0 : Row) (hrow : (rsOf p0.ws).g.rows[i]? = some Ri0) (hblank : Line sr.cells 0 Ri0)
+    (Rp : Row) (hp : (rsOf p0.ws).g.rows[i - 1]? = some Rp) (last : Cell)
+    (hlast : Rp.cells[(rsOf p0.ws).g.size.cols - 1]? = some last) (hocc : (last.hasContents || last.cont) = true)
+    (hpos : (rsOf p0.ws).g.pos = ⟨i - 1, (rsOf p0.ws).g.size.cols⟩) :
+    ∃ out np na, sr.writeContentsFormatted 0 sr.cells.length i true
+        (some (rsOf p0.ws).g.pos) (some (rsOf p0.ws).pen) = .ok (out, np, na) ∧
+      ∃ Ri, Emitted W cb p0 out (shape (wrapBase (rsOf p0.ws) i Rp) i Ri np na) ∧ Line sr.cells sr.cells.length Ri := by
+  let K : Ctx W cb := ⟨p0, hr, rsOf p0.ws, hcv, i, hi, sr.cells, hlen⟩
+  let X : WCtx K := ⟨hi1, Rp, hp, last, hlast, hocc⟩
+  have hne : 0 < sr.cells.length := by rw [hlen]; exact hcv.cols_pos
+  have hem0 : Emitted W cb p0 [] (shape (rsOf p0.ws) i Ri0 ⟨i - 1, (rsOf p0.ws).g.size.cols⟩ (rsOf p0.ws).pen) := by
+    rw [← hpos, shape_self _ _ _ hrow]
+    exact emitted_nil W cb p0 hr
+  have hwin : Row.window sr.cells 0 sr.cells.length = C14.enumFrom 0 sr.cells := by
+    rw [C03.window_eq, C14.windowFrom_eq]; simp
+  by_cases hfd : sr.firstIsDefault 0 = true
+  · -- the first cell is the blank default cell: SP BS ECH 1 forces the wrap
+    have hv0 : view sr.cells[0] = blankV := by
+      simp only [Row.firstIsDefault, List.getElem?_eq_getElem hne] at hfd
+      exact (eq_new_iff _).mp hfd
+    have hJ0 := preamble_inv K hW X hne hem0 hblank hv0
+    obtain ⟨st', e, hJ⟩ := fold_inv (K.wrapped X) hW hS true sr.cells 0 _ (by rfl) (Nat.zero_le _) hJ0
+    have hfin := finish_drawn (K.wrapped X) hS hne true hJ
+    have e' : (C14.enumFrom 0 sr.cells).foldlM (Row.fmtStep sr.cells.length i true) (preamble i (rsOf p0.ws).pen)
+        = .ok st' := e
+    rw [wcf_preamble sr i _ _ hfd, hwin, e']
+    simp only [ok_bind, pure_eq_ok]
+    exact ⟨_, _, _, rfl, hfin⟩
+  · -- otherwise the first thing written on this line forces it
+    have hfd' : sr.firstIsDefault 0 = false := by simpa using hfd
+    have hfirst : ∀ h : 0 < sr.cells.length, sr.cells[0].eq Cell.new = false := by
+      intro h
+      simpa [Row.firstIsDefault, List.getElem?_eq_getElem h] using hfd'
+    have hP0 : Pend K (rsOf p0.ws).pen 0 (pendSt K (rsOf p0.ws).pen false none) :=
+      ⟨rfl, rfl, rfl, rfl, Or.inl ⟨rfl, rfl⟩⟩
+    obtain ⟨st', e, hend⟩ := pending_fold K hW hS X hem0 hblank hfirst sr.cells 0 _ (by rfl) (Nat.zero_le _) hP0
+    have hfin : Drawn (K.wrapped X) sr.cells.length (Row.fmtFinish sr.cells.length i true st') := by
+      rcases hend with hP | hJ
+      · exact finish_pending K hW X hne hem0 hblank hP
+      · exact finish_drawn (K.wrapped X) hS hne true hJ
+    have e' : (C14.enumFrom 0 sr.cells).foldlM (Row.fmtStep sr.cells.length i true)
+        (start ⟨i - 1, (rsOf p0.ws).g.size.cols⟩ (rsOf p0.ws).pen) = .ok st' := e
+    rw [wcf_pending sr i _ _ hfd', hwin, hpos, e']
+    simp only [ok_bind, pure_eq_ok]
+    exact ⟨_, _, _, rfl, hfin⟩
 
 end Vt.RowDraw
